@@ -6,8 +6,13 @@
 //	                               itself: by reference) or `val[i+1] = copyDeferArg(v(f))` with copyDeferArg
 //	                               ending in `c := reflect.New(v.Type()).Elem(); c.Set(v); return c` (a copy)
 //	exitSteps / ifSteps            the statements of the function literal deferred by runCfg, in order
+//	deferredProtected              the loop over f.deferred calls `runDeferred(f, val)` and runDeferred is
+//	                               `defer func() { if r := recover(); r != nil { f.recovered = r } }(); val[0].Call(val[1:])`
+//	                               (false: the loop body is `val[0].Call(val[1:])`)
 //	recoverReadsAnc / recoverClears  _recover: which field is read, and that it is set to nil afterwards
-//	panicPassesValue               _panic: panic(value(f))
+//	panicBoxed                     _panic: `panic(value(f))` (the reflect.Value: true) or `panic(x.Interface())` (false)
+//	panicDeferrable                _panic is generated through genBuiltinDeferWrapper (false: it assigns n.exec itself)
+//	closureAncIsClone / closureLocksDefiner  getFunc: `fr := f.clone()` + `newFrame(fr, …)`; `f.mutex.Lock()` in the wrapper
 //	executeRecovers / executeCarriesValue  Execute: deferred recover() building Panic{Value: r}
 //
 // Anything that is not recognised is emitted as a value that cannot equal the expectation.
@@ -75,6 +80,37 @@ func prependFact(fd *ast.FuncDecl, what string) string {
 	return unrec(what + " registers with " + rhs[0])
 }
 
+// loopBodies: how each recognised loop over f.deferred calls an entry ("call": val[0].Call(val[1:]) in place,
+// "runDeferred": through the helper).
+var loopBodies []string
+
+// helperProtects: runDeferred(f *frame, val []reflect.Value) is exactly
+// `defer func() { if r := recover(); r != nil { f.recovered = r } }(); val[0].Call(val[1:])`.
+func helperProtects(fd *ast.FuncDecl) bool {
+	if fd == nil || fd.Body == nil || len(fd.Body.List) != 2 {
+		return false
+	}
+	if ps := fd.Type.Params; ps == nil || len(ps.List) != 2 || len(ps.List[0].Names) != 1 || len(ps.List[1].Names) != 1 ||
+		ps.List[0].Names[0].Name != "f" || str(ps.List[0].Type) != "*frame" ||
+		ps.List[1].Names[0].Name != "val" || str(ps.List[1].Type) != "[]reflect.Value" {
+		return false
+	}
+	ds, ok := fd.Body.List[0].(*ast.DeferStmt)
+	if !ok || len(ds.Call.Args) != 0 {
+		return false
+	}
+	fl, ok := ds.Call.Fun.(*ast.FuncLit)
+	if !ok || len(fl.Body.List) != 1 {
+		return false
+	}
+	ifs, ok := fl.Body.List[0].(*ast.IfStmt)
+	if !ok || ifs.Else != nil || ifs.Init == nil || str(ifs.Init) != "r := recover()" || str(ifs.Cond) != "r != nil" ||
+		len(ifs.Body.List) != 1 || str(ifs.Body.List[0]) != "f.recovered = r" {
+		return false
+	}
+	return str(fd.Body.List[1]) == "val[0].Call(val[1:])"
+}
+
 // stepOf classifies one statement of runCfg's deferred function.
 func stepOf(s ast.Stmt) string {
 	switch t := str(s); {
@@ -89,9 +125,15 @@ func stepOf(s ast.Stmt) string {
 	}
 	switch x := s.(type) {
 	case *ast.RangeStmt:
-		if str(x.X) == "f.deferred" && x.Value != nil && len(x.Body.List) == 1 &&
-			str(x.Body.List[0]) == str(x.Value)+"[0].Call("+str(x.Value)+"[1:])" {
-			return ".runDeferred"
+		if str(x.X) == "f.deferred" && x.Value != nil && len(x.Body.List) == 1 {
+			switch str(x.Body.List[0]) {
+			case str(x.Value) + "[0].Call(" + str(x.Value) + "[1:])":
+				loopBodies = append(loopBodies, "call")
+				return ".runDeferred"
+			case "runDeferred(f, " + str(x.Value) + ")":
+				loopBodies = append(loopBodies, "runDeferred")
+				return ".runDeferred"
+			}
 		}
 	case *ast.IfStmt:
 		if x.Init == nil && x.Else == nil && str(x.Cond) == "f.recovered != nil" {
@@ -244,7 +286,7 @@ func main() {
 		}
 		hashes := "[" + strings.Join([]string{
 			strings.Trim(common.HashTable(fsetRun, run, [][2]string{{"", "_recover"}, {"", "_panic"},
-				{"", "genBuiltinDeferWrapper"}, {"", "genFunctionWrapper"}, {"", "copyDeferArg"}}), "[]"),
+				{"", "genBuiltinDeferWrapper"}, {"", "genFunctionWrapper"}, {"", "copyDeferArg"}, {"", "runDeferred"}, {"", "getFunc"}}), "[]"),
 			strings.Trim(common.HashTable(fsetProg, prog, [][2]string{{"Interpreter", "Execute"}}), "[]"),
 			strings.Trim(common.HashTable(fsetInterp, interpFile, [][2]string{{"", "newFrame"}, {"frame", "clone"}}), "[]"),
 			fmt.Sprintf("(%s, %s)", common.LeanStr("runCfg: deferred function"), common.LeanStr(blockHash(firstDefer(common.FindFunc(run, "", "runCfg"))))),
@@ -297,6 +339,19 @@ func main() {
 			}
 		}
 
+		// --- how the loop over f.deferred calls an entry
+		protected := ""
+		switch {
+		case len(loopBodies) == 1 && loopBodies[0] == "call":
+			protected = "false"
+		case len(loopBodies) == 1 && loopBodies[0] == "runDeferred" && helperProtects(common.FindFunc(run, "", "runDeferred")):
+			protected = "true"
+		case len(loopBodies) == 1 && loopBodies[0] == "runDeferred":
+			protected = unrec("runDeferred is not `defer func() { if r := recover(); r != nil { f.recovered = r } }(); val[0].Call(val[1:])`")
+		default:
+			protected = unrec(fmt.Sprintf("runCfg: %d recognised loops over f.deferred", len(loopBodies)))
+		}
+
 		// --- _recover
 		readsAnc, clears := "", "false"
 		if fd := common.FindFunc(run, "", "_recover"); fd != nil {
@@ -335,15 +390,97 @@ func main() {
 			readsAnc = unrec("_recover: the field it reads was not recognised")
 		}
 
-		// --- _panic
-		panicPasses := "false"
+		// --- _panic: what is raised, and whether the builtin can be deferred
+		panicBoxed, panicDeferrable := "", ""
 		if fd := common.FindFunc(run, "", "_panic"); fd != nil {
+			var raisedArgs []string
+			wrapper, ownExec := false, false
 			ast.Inspect(fd, func(n ast.Node) bool {
-				if c, ok := n.(*ast.CallExpr); ok && str(c.Fun) == "panic" && len(c.Args) == 1 && str(c.Args[0]) == "value(f)" {
-					panicPasses = "true"
+				switch x := n.(type) {
+				case *ast.CallExpr:
+					if str(x.Fun) == "panic" && len(x.Args) == 1 && str(x.Args[0]) != "nil" {
+						raisedArgs = append(raisedArgs, str(x.Args[0]))
+					}
+					if str(x.Fun) == "genBuiltinDeferWrapper" && len(x.Args) == 4 && str(x.Args[0]) == "n" {
+						wrapper = true
+					}
+				case *ast.AssignStmt:
+					if len(x.Lhs) == 1 && str(x.Lhs[0]) == "n.exec" {
+						ownExec = true
+					}
 				}
 				return true
 			})
+			switch {
+			case len(raisedArgs) == 1 && (raisedArgs[0] == "value(f)" || raisedArgs[0] == "args[0]" || raisedArgs[0] == "v"):
+				panicBoxed = "true"
+			case len(raisedArgs) == 1 && (raisedArgs[0] == "args[0].Interface()" || raisedArgs[0] == "v.Interface()"):
+				panicBoxed = "false"
+			}
+			switch {
+			case wrapper && !ownExec:
+				panicDeferrable = "true"
+			case ownExec && !wrapper:
+				panicDeferrable = "false"
+			}
+		}
+		if panicBoxed == "" {
+			notes = append(notes, "_panic: the value it panics with was not recognised")
+			panicBoxed = "true"
+		}
+		if panicDeferrable == "" {
+			panicDeferrable = unrec("_panic: neither generated through genBuiltinDeferWrapper nor by assigning n.exec")
+		}
+
+		// --- getFunc: the frame of a function literal evaluated as a value, and the lock taken by its wrapper
+		ancClone, locksDefiner := "", ""
+		if fd := common.FindFunc(run, "", "getFunc"); fd != nil {
+			clones, newFrameArg, locks, makeFuncs := false, "", 0, 0
+			ast.Inspect(fd, func(n ast.Node) bool {
+				switch x := n.(type) {
+				case *ast.AssignStmt:
+					if len(x.Lhs) == 1 && len(x.Rhs) == 1 && str(x.Lhs[0]) == "fr" && str(x.Rhs[0]) == "f.clone()" {
+						clones = true
+					}
+				case *ast.CallExpr:
+					if str(x.Fun) == "reflect.MakeFunc" && len(x.Args) == 2 {
+						if fl, ok := x.Args[1].(*ast.FuncLit); ok {
+							makeFuncs++
+							ast.Inspect(fl, func(m ast.Node) bool {
+								if c, ok := m.(*ast.CallExpr); ok {
+									if str(c.Fun) == "newFrame" && len(c.Args) == 3 {
+										newFrameArg += str(c.Args[0]) + ";"
+									}
+									if str(c.Fun) == "f.mutex.Lock" {
+										locks++
+									}
+								}
+								return true
+							})
+						}
+					}
+				}
+				return true
+			})
+			switch {
+			case makeFuncs == 1 && clones && newFrameArg == "fr;":
+				ancClone = "true"
+			case makeFuncs == 1 && newFrameArg == "f;":
+				ancClone = "false"
+			}
+			switch {
+			case makeFuncs == 1 && locks == 1:
+				locksDefiner = "true"
+			case makeFuncs == 1 && locks == 0:
+				locksDefiner = "false"
+			}
+		}
+		if ancClone == "" {
+			ancClone = unrec("getFunc: the ancestor of the literal's frame was not recognised")
+		}
+		if locksDefiner == "" {
+			notes = append(notes, "getFunc: the locking of the defining frame by the wrapper was not recognised")
+			locksDefiner = "true"
 		}
 
 		// --- Execute
@@ -389,7 +526,7 @@ def unrecognised : List String := %s
 /-- fingerprints of the functions and blocks that Model/Unwind.lean transcribes -/
 def sourceHashes : List (String × String) :=
   %s
-/-- interp/run.go call, callBin, genBuiltinDeferWrapper, runCfg, _recover, _panic; interp/program.go Execute -/
+/-- interp/run.go call, callBin, genBuiltinDeferWrapper, runCfg, runDeferred, _recover, _panic, getFunc; interp/program.go Execute -/
 def facts : UnwindFacts :=
   { prependCall := %s,
     prependCallBin := %s,
@@ -399,13 +536,17 @@ def facts : UnwindFacts :=
     argsByRefBuiltin := %s,
     exitSteps := %s,
     ifSteps := %s,
+    deferredProtected := %s,
     recoverReadsAnc := %s,
     recoverClears := %s,
-    panicPassesValue := %s,
+    panicBoxed := %s,
+    panicDeferrable := %s,
+    closureAncIsClone := %s,
+    closureLocksDefiner := %s,
     executeRecovers := %s,
     executeCarriesValue := %s }
 end YaegiVerif.Generated.C06
-`, common.LeanStrList(notes), hashes, pCall, pBin, pBuiltin, refCall, refBin, refBuiltin, stepList(exitSteps), stepList(ifSteps), readsAnc, clears, panicPasses,
-			execRecovers, execCarries), nil
+`, common.LeanStrList(notes), hashes, pCall, pBin, pBuiltin, refCall, refBin, refBuiltin, stepList(exitSteps), stepList(ifSteps), protected, readsAnc, clears, panicBoxed,
+			panicDeferrable, ancClone, locksDefiner, execRecovers, execCarries), nil
 	})
 }
